@@ -75,6 +75,7 @@ def dispatch (spec : Bool) (line : String) : String :=
   | "RUNV" :: a => cmdRun spec true a
   | "EXEC" :: a => cmdExec spec a
   | "EXECF" :: a => cmdExecG true spec a
+  | "SESSIONX" :: a => cmdSessionX a
   | ["TXPARSE", h] =>
     match ofHex h with
     | none => "bad-op"
